@@ -555,35 +555,34 @@ def _arrange(index, tags, ordinary):
     return tags
 
 
-def core_enumeration(sizes, full):
+def _window(seq, start, n):
+    if n >= len(seq):
+        return seq
+    return [seq[(start + j * (len(seq) // n)) % len(seq)] for j in range(n)]
+
+
+def core_enumeration(sizes, n_values=None, n_modes=None):
+    """All tag multisets of the given sizes; per multiset all (or a rotating window of) value assignments / modes."""
     universe = ["%s.with_%s=%s" % (p, c, v) for p in DEFAULT_PREFIXES for c in CORE_CATEGORIES for v in CORE_VALUES]
     index = 0
     for size in sizes:
         for combo in itertools.combinations_with_replacement(universe, size):
             index += 1
-            if full:
-                values, modes = CORE_ASSIGNMENTS, MODES
-            else:
-                k = index % len(CORE_ASSIGNMENTS)
-                values = [CORE_ASSIGNMENTS[k], CORE_ASSIGNMENTS[(k + 4) % 9], CORE_ASSIGNMENTS[(k + 8) % 9]]
-                modes = [MODES[index % len(MODES)]]
-            yield {"tags": _arrange(index, combo, ORDINARY), "values": values, "modes": modes}
+            yield {"tags": _arrange(index, combo, ORDINARY),
+                   "values": _window(CORE_ASSIGNMENTS, index, n_values or 99),
+                   "modes": _window(MODES, index, n_modes or 99)}
 
 
-def typed_enumeration(sizes, full):
+def typed_enumeration(sizes, n_values=None, n_modes=None):
     universe = ["%s.with_%s=%s" % (p, c, v) for p in DEFAULT_PREFIXES for c in ("n", "flag", "c")
                 for v in TYPED_TAG_VALUES[c]]
     index = 0
-    n = len(TYPED_ASSIGNMENTS)
     for size in sizes:
         for combo in itertools.combinations_with_replacement(universe, size):
             index += 1
-            if full:
-                values, modes = TYPED_ASSIGNMENTS, MODES
-            else:
-                values = [TYPED_ASSIGNMENTS[(index * 7 + j * 11) % n] for j in range(4)]
-                modes = [MODES[index % len(MODES)]]
-            yield {"tags": _arrange(index, combo, TYPED_ORDINARY), "values": values, "modes": modes}
+            yield {"tags": _arrange(index, combo, TYPED_ORDINARY),
+                   "values": _window(TYPED_ASSIGNMENTS, index * 7, n_values or 99),
+                   "modes": _window(MODES, index, n_modes or 99)}
 
 
 # ---------------------------------------------------------------------------
@@ -601,35 +600,40 @@ BOOL_TAGS = list(_TRUE + _FALSE)
 BOOL_TAGS_BAD = ["maybe", "", "ja", "2", "y", "t"]
 
 
-@st.composite
-def value_desc_st(draw):
-    """-> (current value description, strategy-free list of tag values worth using)"""
-    kind = draw(st.sampled_from(["plain", "plain", "value", "number", "number", "bool"]))
+def _sample(rnd, pool, max_size, min_size=0):
+    return rnd.sample(pool, rnd.randint(min_size, min(max_size, len(pool))))
+
+
+def gen_value_desc(rnd):
+    """-> (current value description, tag values worth using for it)"""
+    kind = rnd.choice(["plain", "plain", "value", "number", "number", "bool"])
     if kind == "plain":
-        cur = draw(st.sampled_from(STRING_POOL))
-        return cur, [cur, cur + "y", cur[:-1]] + STRING_POOL[:4]
-    lazy = draw(st.booleans())
+        cur = rnd.choice(STRING_POOL)
+        return cur, [cur, cur, cur + "y", cur[:-1]] + STRING_POOL[:4]
+    lazy = rnd.random() < 0.5
     if kind == "value":
-        op = draw(st.sampled_from([None, "eq", "ne", "ge", "le", "contains", "prefix", "ieq"]))
+        op = rnd.choice([None, "eq", "ne", "ge", "le", "contains", "prefix", "ieq"])
         if op == "contains":
-            cur = draw(st.lists(st.sampled_from(STRING_POOL), max_size=3, unique=True))
-            hints = list(cur) + STRING_POOL[:3]
+            cur = _sample(rnd, STRING_POOL, 3)
+            hints = list(cur) * 2 + STRING_POOL[:3]
         else:
-            cur = draw(st.sampled_from(STRING_POOL))
-            hints = [cur, cur + "y", cur[:-1], cur.upper(), cur.lower()] + STRING_POOL[:3]
+            cur = rnd.choice(STRING_POOL)
+            hints = [cur, cur, cur + "y", cur[:-1], cur.upper(), cur.lower()] + STRING_POOL[:3]
         return {"kind": "value", "op": op, "value": cur, "lazy": lazy}, hints
     if kind == "number":
-        op = draw(st.sampled_from(NUMBER_OPS + ["contains"]))
+        op = rnd.choice(NUMBER_OPS + ["contains"])
         if op == "contains":
-            cur = draw(st.lists(st.integers(-2, 12), max_size=3, unique=True))
+            cur = _sample(rnd, list(range(-2, 13)), 3)
             base = cur[0] if cur else 0
         else:
-            cur = draw(st.integers(-2, 12))
+            cur = rnd.randint(-2, 12)
             base = cur
-        hints = [str(base), str(base + 1), str(base - 1), "+%d" % abs(base), "0%d" % abs(base)] + NUMBER_TAGS_BAD
+        hints = [str(base), str(base), str(base + 1), str(base - 1), "+%d" % abs(base), "0%d" % abs(base),
+                 rnd.choice(NUMBER_TAGS_BAD)]
         return {"kind": "number", "op": op, "value": cur, "lazy": lazy}, hints
-    op = draw(st.sampled_from([None, "eq", "ne"]))
-    return {"kind": "bool", "op": op, "value": draw(st.booleans()), "lazy": lazy}, BOOL_TAGS + BOOL_TAGS_BAD
+    op = rnd.choice([None, "eq", "ne"])
+    return ({"kind": "bool", "op": op, "value": rnd.random() < 0.5, "lazy": lazy},
+            BOOL_TAGS + [rnd.choice(BOOL_TAGS_BAD)])
 
 
 def _lookalikes(prefix, category, sep, value):
@@ -646,56 +650,53 @@ def _lookalikes(prefix, category, sep, value):
             "foo", "wip", "slow"]
 
 
-@st.composite
-def world_st(draw, separators=SEPARATOR_POOL, p_custom=0.6, dotted=True):
+def gen_world(rnd, separators=SEPARATOR_POOL, p_custom=0.6, dotted=True):
     """-> (cfg, values, tags)"""
     cfg = None
     prefixes = list(DEFAULT_PREFIXES)
     sep = "="
-    if draw(st.floats(0, 1)) < p_custom:
-        cfg = {"via": draw(st.sampled_from(["ctor", "ctor", "subclass", "attr"]))}
-        what = draw(st.integers(1, 7))
+    if rnd.random() < p_custom:
+        cfg = {"via": rnd.choice(["ctor", "ctor", "subclass", "attr"])}
+        what = rnd.randint(1, 7)
         if what & 1:
-            prefixes = draw(st.lists(st.sampled_from(PREFIX_POOL), min_size=1, max_size=4, unique=True))
+            prefixes = _sample(rnd, PREFIX_POOL, 4, 1)
             cfg["prefixes"] = prefixes
         if what & 2:
-            sep = draw(st.sampled_from(separators))
+            sep = rnd.choice(separators)
             cfg["sep"] = sep
         if what & 4:
-            cfg["ignore_unknown"] = draw(st.booleans())
+            cfg["ignore_unknown"] = rnd.random() < 0.5
     pool = CATEGORY_POOL if dotted else [c for c in CATEGORY_POOL if "." not in c]
-    cats = draw(st.lists(st.sampled_from(pool), min_size=1, max_size=4, unique=True))
-    n_known = draw(st.integers(0, len(cats)))
+    cats = _sample(rnd, pool, 4, 1)
+    n_known = rnd.randint(0, len(cats))
     values = {}
     hints = {}
     for i, cat in enumerate(cats):
         if i < n_known:
-            values[cat], hints[cat] = draw(value_desc_st())
+            values[cat], hints[cat] = gen_value_desc(rnd)
         else:
             hints[cat] = STRING_POOL[:5] + ["1", "yes"]
-    n_tags = draw(st.integers(0, 6))
     tags = []
-    for _ in range(n_tags):
-        what = draw(st.integers(0, 9))
-        cat = draw(st.sampled_from(cats))
-        prefix = draw(st.sampled_from(prefixes))
-        value = draw(st.sampled_from(hints[cat]))
+    for _ in range(rnd.randint(0, 6)):
+        what = rnd.randint(0, 9)
+        cat = rnd.choice(cats)
+        prefix = rnd.choice(prefixes)
+        value = rnd.choice(hints[cat])
         if not dotted:
             value = value.replace(".", "")
         if what <= 6:
             tags.append("%s.with_%s%s%s" % (prefix, cat, sep, value))
         elif what == 7 and tags:
-            tags.append(draw(st.sampled_from(tags)))            # duplicate
+            tags.append(rnd.choice(tags))           # duplicate
         else:
-            tags.append(draw(st.sampled_from(_lookalikes(prefix, cat, sep, value))))
+            tags.append(rnd.choice(_lookalikes(prefix, cat, sep, value)))
     return cfg, values, tags
 
 
-@st.composite
-def matrix_case_st(draw):
-    cfg, values, tags = draw(world_st())
-    modes = draw(st.lists(st.sampled_from(MODES), min_size=1, max_size=3, unique=True))
-    if not values and draw(st.booleans()):
+def gen_matrix_case(rnd):
+    cfg, values, tags = gen_world(rnd)
+    modes = _sample(rnd, MODES, 3, 1)
+    if not values and rnd.random() < 0.5:
         modes.append("none")
     case = {"tags": tags, "values": [values], "modes": modes}
     if cfg is not None:
@@ -703,62 +704,62 @@ def matrix_case_st(draw):
     return case
 
 
-@st.composite
-def literal_sep_case_st(draw):
-    cfg, values, tags = draw(world_st(separators=META_SEPARATOR_POOL, p_custom=0.0, dotted=False))
-    sep = draw(st.sampled_from(META_SEPARATOR_POOL))
-    # rebuild the tags with the special separator (world_st rendered them with "=")
-    cfg = {"sep": sep, "via": draw(st.sampled_from(["ctor", "subclass"]))}
-    new_tags = []
-    for tag in tags:
-        keep = draw(st.integers(0, 3)) == 0     # some keep "=": ordinary tags under the custom separator
-        new_tags.append(tag if keep else tag.replace("=", sep, 1))
+def gen_literal_sep_case(rnd):
+    _cfg, values, tags = gen_world(rnd, p_custom=0.0, dotted=False)
+    sep = rnd.choice(META_SEPARATOR_POOL)
+    cfg = {"sep": sep, "via": rnd.choice(["ctor", "subclass"])}
+    # re-render the tags with the special separator; some keep "=": ordinary tags under the custom separator
+    new_tags = [tag if rnd.randint(0, 3) == 0 else tag.replace("=", sep, 1) for tag in tags]
     return {"kind": "literal-sep", "tags": new_tags, "values": [values], "modes": ["dict"], "cfg": cfg}
 
 
-@st.composite
-def composite_case_st(draw):
-    cfg, values, tags = draw(world_st(p_custom=0.3))
+def gen_composite_case(rnd):
+    cfg, values, tags = gen_world(rnd, p_custom=0.3)
     members = []
     cats = sorted(values)
-    n = draw(st.integers(0, 4))
-    for _ in range(n):
-        what = draw(st.integers(0, 9))
+    for _ in range(rnd.randint(0, 4)):
+        what = rnd.randint(0, 9)
         if what <= 6:
-            subset = draw(st.lists(st.sampled_from(cats), unique=True)) if cats else []
-            m = {"values": {c: values[c] for c in subset},
-                 "mode": draw(st.sampled_from(["dict", "vo", "atvp", "getonly", "composite-provider"]))}
+            subset = _sample(rnd, cats, len(cats))
+            m = {"values": {c: values[c] for c in sorted(subset)},
+                 "mode": rnd.choice(["dict", "vo", "atvp", "getonly", "composite-provider"])}
             if cfg is not None:
                 m["cfg"] = cfg
             members.append(m)
         elif what == 7:
-            members.append({"pred": "has", "tag": draw(st.sampled_from(tags + ["foo"]))})
+            members.append({"pred": "has", "tag": rnd.choice(tags + ["foo"])})
         elif what == 8:
-            members.append({"pred": "const", "value": draw(st.integers(0, 4)) == 0})
+            members.append({"pred": "const", "value": rnd.randint(0, 4) == 0})
         elif members:
-            k = draw(st.integers(1, len(members)))
+            k = rnd.randint(1, len(members))
             members = members[:-k] + [{"members": members[-k:]}]
     return {"kind": "composite", "tags": tags, "members": members}
+
+
+def _strategy(builder):
+    """All random choices come from a Random instance that Hypothesis seeds (st.randoms): the strategies with
+    dozens of single draws cost ~5 ms per case, this one ~0.1 ms."""
+    return st.randoms(use_true_random=True).map(builder)
 
 
 def explore(rec):
     quick = rec.tier == "quick"
     # (a) string categories
-    rec.enum("core-multisets<=3:all-values:all-providers", core_enumeration([0, 1, 2, 3], full=True))
     if quick:
-        rec.enum("core-multisets=4:rotating-values", core_enumeration([4], full=False))
+        rec.enum("core-multisets<=3:all-values:rotating-3-providers", core_enumeration([0, 1, 2, 3], None, 3))
+        rec.enum("core-multisets=4:rotating-2-values:rotating-provider", core_enumeration([4], 2, 1))
     else:
-        rec.enum("core-multisets=4:all-values:all-providers", core_enumeration([4], full=True))
+        rec.enum("core-multisets<=4:all-values:all-providers", core_enumeration([0, 1, 2, 3, 4]))
     # (b) typed categories
-    rec.enum("typed-multisets<=2:all-values:all-providers", typed_enumeration([0, 1, 2], full=True))
     if quick:
-        rec.enum("typed-multisets=3:rotating-values", typed_enumeration([3], full=False))
+        rec.enum("typed-multisets<=2:all-values:rotating-3-providers", typed_enumeration([0, 1, 2], None, 3))
+        rec.enum("typed-multisets=3:rotating-4-values:rotating-provider", typed_enumeration([3], 4, 1))
     else:
-        rec.enum("typed-multisets=3:all-values:all-providers", typed_enumeration([3], full=True))
+        rec.enum("typed-multisets<=3:all-values:all-providers", typed_enumeration([0, 1, 2, 3]))
     # (c)-(e)
-    rec.hyp("random-configuration", matrix_case_st(), 24000 if quick else 1200000)
-    rec.hyp("composite-matcher", composite_case_st(), 8000 if quick else 300000)
-    rec.hyp("regex-special-separator", literal_sep_case_st(), 2400 if quick else 60000)
+    rec.hyp("random-configuration", _strategy(gen_matrix_case), 60000 if quick else 3000000)
+    rec.hyp("composite-matcher", _strategy(gen_composite_case), 24000 if quick else 800000)
+    rec.hyp("regex-special-separator", _strategy(gen_literal_sep_case), 6000 if quick else 100000)
 
 
 def required_labels(tier):
